@@ -434,7 +434,7 @@ UNITS["v_crud_vec"] = dict(
              orig_sig="fn remove_value(&mut self, key: &isize) -> Option<Value>",
              sig="pub fn remove_value(this: &mut Vec<Value>, key: &isize) -> (r: Option<Value>)",
              requires=["old(this)@.len() <= isize::MAX"],
-             rewrites=[RW_SELF, dict(**{"from": "array_index(this,", "to": "array_index(this.as_slice(),", "why": "explicit deref coercion &Vec -> &[T]"})],
+             rewrites=[RW_SELF, dict(**{"from": "array_index(this,", "to": "array_index(this.as_slice(),", "optional": True, "why": "explicit deref coercion &Vec -> &[T]"})],
              ensures=[("C18.remove_value.returns_get", "removing returns exactly what reading the index returned before",
                        "r == spec_get(old(this)@, *key as int)"),
                       ("C18.remove_value.whole", "removing deletes exactly the addressed element and keeps every other element in order; an out-of-range index changes nothing",
